@@ -566,7 +566,7 @@ Require Import Emit.
 Definition chk_shadow (cases : list (N * N * string)) : list N :=
   map (fun c => let '(l, k, name) := c in
          b2n (shadows (if l =? 0 then LC else if l =? 1 then LCpp else if l =? 2 then LRust else LJava)
-                      (if k =? 0 then KData else KObject) (id name))) cases.
+                      (if k =? 0 then KData else if k =? 1 then KObject else KMethod) (id name))) cases.
 (* depth of the hierarchy -> is the C++ base clause the emitter writes well formed? *)
 Definition chk_base_clause (depths : list N) : list N :=
   map (fun d => b2n (wf_base_clause (cpp_base_clause (repeat "X"%string (N.to_nat d))))) depths.
